@@ -112,7 +112,7 @@ impl Archive {
 //     .filter_map(|entry| entry.name.parse().ok())
 //     .sorted()
 //     .collect()
-// ASSUMED contract (for Verus; a bounded Kani check of this snippet against the contract is future work):
+// ASSUMED contract (for Verus; a bounded check of this snippet against the contract runs in the thorough tier: r7/run.py):
 // the result is sorted ascending and contains exactly the ids that the kept entries parse to.
 #[verifier::external_body]
 fn r7_band_ids_of_listing(entries: Vec<DirEntry>) -> (r: Vec<BandId>)
